@@ -41,7 +41,7 @@ theorem lose_down (s : S) (why : Cause) (hd : s.down = true) : (s.lose why).down
   unfold S.lose
   split
   · exact hd
-  · rw [settle_down]; simp only [hd, ↓reduceIte]
+  · rw [settle_down]; simp only [hd]
 
 theorem lose_handlers_of_down (s : S) (why : Cause) (hd : s.down = true) :
     (s.lose why).handlers = s.handlers := by
